@@ -22,7 +22,10 @@ MassFx(Mm, q) ==
 Outdeg(Mm, q) == Cardinality({r \in DOMAIN Mm.arcs : Mm.arcs[r][1] = q}) + Cardinality({i \in DOMAIN Mm.F : Mm.F[i][1] = q})
 UsedFx(Mm) == {Mm.arcs[r][1] : r \in DOMAIN Mm.arcs} \cup {Mm.arcs[r][3] : r \in DOMAIN Mm.arcs}
               \cup {Mm.I[i][1] : i \in DOMAIN Mm.I} \cup {Mm.F[i][1] : i \in DOMAIN Mm.F}
-NormalisedOK(e) == \A q \in UsedFx(e.M) :
+(* A start state with no arc and no final weight is what the conversion produces when no string at all matches over  *)
+(* the set: there is nothing to normalise there (and SupportOK decides whether the language really is empty).         *)
+Barren(Mm, q) == Outdeg(Mm, q) = 0 /\ \A r \in DOMAIN Mm.arcs : Mm.arcs[r][3] # q
+NormalisedOK(e) == \A q \in UsedFx(e.M) : Barren(e.M, q) \/
    LET d == MassFx(e.M, q) - FxScale  t == 3 * Outdeg(e.M, q) + 2 IN -t <= d /\ d <= t
 NoEpsOK(e) == \A r \in DOMAIN e.M.arcs : e.M.arcs[r][2] # ""
 
